@@ -182,7 +182,7 @@ Theorem any_stream_list_refuted :
        read_pmt (packetise pid items) pid = Ok (sec_result (sec c))).
 Proof. intros H. specialize (H k1_carrier 256 k1_items k1_wf k1_items_wf).
   assert (E: exists n, concat (chunks k1_items) = ser_unit k1_carrier ++ repeatN 255 n) by (exists 0; vm_compute; reflexivity).
-  specialize (H E (cuts_ok_no_pre _ _ eq_refl)). vm_compute in H. discriminate. Qed.
+  specialize (H E (cuts_ok_no_pre k1_carrier k1_items eq_refl)). vm_compute in H. discriminate. Qed.
 
 (* ---------- F4: the completion predicate of the unrepaired tree is true on header-straddling proper prefixes ---------- *)
 Theorem done_orig_refuted :
